@@ -1208,8 +1208,57 @@ pub mod xq {
         one!("{:E}");
         v
     }
-    pub const DESC: &str = "[C01] built-in ext traits core::fmt::{Display, Debug, Octal, LowerHex, UpperHex, Pointer, Binary, LowerExp, UpperExp}: every one reaches the implementor's own fmt, also when that fails by itself";
+    /// a sink for which every single call matters: it records each piece (also empty ones) and refuses the `fail_at`-th call
+    pub struct Rec {
+        pub pieces: Vec<String>,
+        pub fail_at: Option<usize>,
+        pub calls: usize,
+    }
+    impl fmt::Write for Rec {
+        fn write_str(&mut self, s: &str) -> fmt::Result {
+            self.calls += 1;
+            if Some(self.calls) == self.fail_at {
+                return Err(fmt::Error);
+            }
+            self.pieces.push(s.to_string());
+            Ok(())
+        }
+    }
+    const SCRIPT: [&str; 7] = ["ab", "", "c", "", "", "\\u{e9}x", ""];
+    fn script<W: fmt::Write>(w: &mut W) -> Vec<bool> {
+        SCRIPT.iter().map(|p| w.write_str(p).is_ok()).collect()
+    }
+    fn write_objects() -> Result<u64, (String, String)> {
+        use cglue::ext::core::fmt::{WriteBaseBox, WriteBaseMut, WriteBox, WriteMut};
+        use cglue::trait_group::Opaquable;
+        let mut all = Vec::new();
+        for fail_at in [None, Some(1usize), Some(2), Some(4), Some(7)] {
+            let mut direct = Rec { pieces: Vec::new(), fail_at, calls: 0 };
+            let want_res = script(&mut direct);
+            let mut sink = Rec { pieces: Vec::new(), fail_at, calls: 0 };
+            let got_res = {
+                let base: WriteBaseMut<Rec> = From::from(&mut sink);
+                let mut obj: WriteMut = base.into_opaque();
+                script(&mut obj)
+            };
+            if got_res != want_res || sink.pieces != direct.pieces || sink.calls != direct.calls {
+                return Err(("obj:fmt_ext:Write".into(), format!(
+                    "write_str of {:?} through a by-reference built-in Write object over a sink that refuses call {:?}: results {:?}, pieces {:?}, {} calls; directly: results {:?}, pieces {:?}, {} calls",
+                    SCRIPT, fail_at, got_res, sink.pieces, sink.calls, want_res, direct.pieces, direct.calls)));
+            }
+            let base: WriteBaseBox<Rec> = From::from(Rec { pieces: Vec::new(), fail_at, calls: 0 });
+            let mut obj: WriteBox = base.into_opaque();
+            let boxed_res = script(&mut obj);
+            if boxed_res != want_res {
+                return Err(("obj:fmt_ext:Write".into(), format!("write_str through a boxed built-in Write object (sink refuses call {:?}): results {:?}, directly {:?}", fail_at, boxed_res, want_res)));
+            }
+            all.push((want_res, direct.pieces));
+        }
+        Ok(digest(&all))
+    }
+    pub const DESC: &str = "[C01] built-in ext traits core::fmt::{Display, Debug, Octal, LowerHex, UpperHex, Pointer, Binary, LowerExp, UpperExp}: every one reaches the implementor's own fmt, also when that fails by itself; built-in Write objects: every write_str call (also of an empty string) reaches the sink once";
     pub fn raw_check() -> Result<u64, (String, String)> {
+        let wd = write_objects()?;
         let mut acc = Vec::new();
         for fail in [false, true] {
             let want = all(&Q { id: 41, fail });
@@ -1230,7 +1279,7 @@ pub mod xq {
             }
             acc.push(want);
         }
-        Ok(digest(&acc))
+        Ok(digest(&(acc, wd)))
     }
 }
 
